@@ -100,10 +100,10 @@ type Module struct {
 }
 
 type Prelude struct {
-	Mods  map[string]*Module
-	Sigs  map[string]*FnSig
-	Sorts map[string]*Sort // named sorts declared in the prelude
-	Alias map[string]string
+	Mods    map[string]*Module
+	Sigs    map[string]*FnSig
+	Sorts   map[string]*Sort // named sorts declared in the prelude
+	Alias   map[string]string
 	HeapFns []string
 }
 
@@ -117,75 +117,82 @@ func loadPrelude(dir string) (*Prelude, error) {
 			return nil, err
 		}
 		name := strings.TrimSuffix(filepath.Base(f), ".smt2")
-		m := &Module{Name: name, Text: string(b)}
-		for _, line := range strings.Split(m.Text, "\n") {
-			if strings.HasPrefix(line, ";; requires:") {
-				m.Requires = append(m.Requires, strings.Fields(strings.TrimPrefix(line, ";; requires:"))...)
-			}
-			if strings.HasPrefix(line, ";; heapfn:") {
-				p.HeapFns = append(p.HeapFns, strings.Fields(strings.TrimPrefix(line, ";; heapfn:"))...)
-			}
-		}
-		forms, err := readSx(m.Text)
-		if err != nil {
+		if err := p.addModule(name, string(b)); err != nil {
 			return nil, fmt.Errorf("%s: %v", f, err)
 		}
-		m.Forms = len(forms)
-		for _, fm := range forms {
-			if !fm.isL || len(fm.list) == 0 {
-				continue
+	}
+	return p, nil
+}
+
+func (p *Prelude) addModule(name, text string) error {
+	m := &Module{Name: name, Text: text}
+	for _, line := range strings.Split(m.Text, "\n") {
+		if strings.HasPrefix(line, ";; requires:") {
+			m.Requires = append(m.Requires, strings.Fields(strings.TrimPrefix(line, ";; requires:"))...)
+		}
+		if strings.HasPrefix(line, ";; heapfn:") {
+			p.HeapFns = append(p.HeapFns, strings.Fields(strings.TrimPrefix(line, ";; heapfn:"))...)
+		}
+	}
+	forms, err := readSx(m.Text)
+	if err != nil {
+		return err
+	}
+	m.Forms = len(forms)
+	for _, fm := range forms {
+		if !fm.isL || len(fm.list) == 0 {
+			continue
+		}
+		switch fm.list[0].atom {
+		case "assert":
+			m.Axioms++
+		case "declare-sort":
+			n := fm.list[1].atom
+			p.Sorts[n] = &Sort{Name: n, Opaque: true}
+		case "define-sort":
+			n := fm.list[1].atom
+			p.Alias[n] = fm.list[3].String()
+			p.Sorts[n] = &Sort{Name: n}
+		case "declare-fun":
+			sig := &FnSig{Name: fm.list[1].atom, Ret: fm.list[3].String()}
+			for _, a := range fm.list[2].list {
+				sig.Args = append(sig.Args, a.String())
 			}
-			switch fm.list[0].atom {
-			case "assert":
-				m.Axioms++
-			case "declare-sort":
-				n := fm.list[1].atom
-				p.Sorts[n] = &Sort{Name: n, Opaque: true}
-			case "define-sort":
-				n := fm.list[1].atom
-				p.Alias[n] = fm.list[3].String()
-				p.Sorts[n] = &Sort{Name: n}
-			case "declare-fun":
-				sig := &FnSig{Name: fm.list[1].atom, Ret: fm.list[3].String()}
-				for _, a := range fm.list[2].list {
-					sig.Args = append(sig.Args, a.String())
-				}
-				p.Sigs[sig.Name] = sig
-			case "declare-const":
-				p.Sigs[fm.list[1].atom] = &FnSig{Name: fm.list[1].atom, Ret: fm.list[2].String()}
-			case "define-fun", "define-fun-rec":
-				sig := &FnSig{Name: fm.list[1].atom, Ret: fm.list[3].String()}
-				for _, a := range fm.list[2].list {
-					sig.Args = append(sig.Args, a.list[1].String())
-				}
-				p.Sigs[sig.Name] = sig
-			case "declare-datatypes":
-				// ((Name 0)...) ((ctor (sel Sort)...)...)
-				for k, d := range fm.list[1].list {
-					dn := d.list[0].atom
-					st := &Sort{Name: dn}
-					p.Sorts[dn] = st
-					for _, ctor := range fm.list[2].list[k].list {
-						if !ctor.isL {
-							p.Sigs[ctor.atom] = &FnSig{Name: ctor.atom, Ret: dn}
-							p.Sigs["is"+ctor.atom] = &FnSig{Name: "(_ is " + ctor.atom + ")", Args: []string{dn}, Ret: "Bool"}
-							continue
-						}
-						cn := ctor.list[0].atom
-						sig := &FnSig{Name: cn, Ret: dn}
-						for _, sl := range ctor.list[1:] {
-							sig.Args = append(sig.Args, sl.list[1].String())
-							p.Sigs[sl.list[0].atom] = &FnSig{Name: sl.list[0].atom, Args: []string{dn}, Ret: sl.list[1].String()}
-						}
-						p.Sigs[cn] = sig
-						p.Sigs["is"+cn] = &FnSig{Name: "(_ is " + cn + ")", Args: []string{dn}, Ret: "Bool"}
+			p.Sigs[sig.Name] = sig
+		case "declare-const":
+			p.Sigs[fm.list[1].atom] = &FnSig{Name: fm.list[1].atom, Ret: fm.list[2].String()}
+		case "define-fun", "define-fun-rec":
+			sig := &FnSig{Name: fm.list[1].atom, Ret: fm.list[3].String()}
+			for _, a := range fm.list[2].list {
+				sig.Args = append(sig.Args, a.list[1].String())
+			}
+			p.Sigs[sig.Name] = sig
+		case "declare-datatypes":
+			// ((Name 0)...) ((ctor (sel Sort)...)...)
+			for k, d := range fm.list[1].list {
+				dn := d.list[0].atom
+				st := &Sort{Name: dn}
+				p.Sorts[dn] = st
+				for _, ctor := range fm.list[2].list[k].list {
+					if !ctor.isL {
+						p.Sigs[ctor.atom] = &FnSig{Name: ctor.atom, Ret: dn}
+						p.Sigs["is"+ctor.atom] = &FnSig{Name: "(_ is " + ctor.atom + ")", Args: []string{dn}, Ret: "Bool"}
+						continue
 					}
+					cn := ctor.list[0].atom
+					sig := &FnSig{Name: cn, Ret: dn}
+					for _, sl := range ctor.list[1:] {
+						sig.Args = append(sig.Args, sl.list[1].String())
+						p.Sigs[sl.list[0].atom] = &FnSig{Name: sl.list[0].atom, Args: []string{dn}, Ret: sl.list[1].String()}
+					}
+					p.Sigs[cn] = sig
+					p.Sigs["is"+cn] = &FnSig{Name: "(_ is " + cn + ")", Args: []string{dn}, Ret: "Bool"}
 				}
 			}
 		}
-		p.Mods[name] = m
 	}
-	return p, nil
+	p.Mods[name] = m
+	return nil
 }
 
 // closure of module names in dependency order
@@ -609,6 +616,12 @@ func (tr *fnTrans) specCall(x ECall, env *specEnv) (Term, error) {
 			return T(and(app("<=", "0", slArr(args[0].S)), app("<", slArr(args[0].S), al)), SBool), nil
 		}
 		return T(and(app("<", "0", args[0].S), app("<", args[0].S), al), SBool), nil
+	case "wf": // type invariant of a reference-typed value: it refers to allocated storage
+		al := env.alloc
+		if env.inOld {
+			al = env.alloc0
+		}
+		return T(tr.wf(args[0], al), SBool), nil
 	case "arr":
 		return T(slArr(args[0].S), SInt), nil
 	case "deref": // contents of the cell a pointer refers to
